@@ -61,7 +61,7 @@ open(os.path.join(dst, 'demo.py'), 'w').write(demo)
 mp = os.path.join(dst, 'meta.json')
 if os.path.exists(mp):
     old = json.load(open(mp))
-    for k in ('history', 'strengthening'):
+    for k in ('history', 'strengthening', 'expect_miss', 'miss_reason'):
         if k in old:
             res[k] = old[k]
     res.setdefault('history', []).append(dict(at=time.strftime('%Y-%m-%d %H:%M'), checks=old.get('checks')))
